@@ -982,6 +982,7 @@ pub fn gen_history(p: &KProf, rng: &mut Rng) -> (usize, Vec<KOp>) {
 
 /// run one explicit history on a fresh instance; on a monitor firing return the executed prefix
 pub fn run_history<C: KeyColl>(hint: usize, ops: &[KOp], mon: &KMon, rep: &mut Report, hist: u64) -> Result<(), (Fail, usize)> {
+    ctx::set(hist, 0); // a crash inside the constructor belongs to this history too
     let mut ex = KeyExec::<C>::new(hint);
     for (i, op) in ops.iter().enumerate() {
         ctx::set(hist, i as u64);
